@@ -4,7 +4,7 @@
    is enabled -- the harness waits for exactly that quiescence), and the monitors of model/IngestSpec.v are run
    over the OBSERVED events. *)
 From Coq Require Import List NArith ZArith Bool.
-From Qryn Require Import model.Ingest model.PushHandler model.PushConfirm model.IngestSpec model.IngestSched model.IngestFresh.
+From Qryn Require Import model.Ingest model.PushHandler model.PushConfirm model.IngestSpec model.IngestSched model.IngestFresh model.PushRead.
 Import ListNotations.
 
 (* ---------------------------------------------------------------- compact literals *)
@@ -308,23 +308,28 @@ Fixpoint settle2 (fuel : nat) (g : gstate) (dls : list (list bool)) : gstate * l
       end
   end.
 
-Definition op2_act (o : op2) : gact :=
+(* An HTTP push arrives through its parser, which reads the announcement cache (model/PushRead.v): `items` is what the parser
+   emits when the cache holds nothing (learnt by a dry run on an empty cache); the series rows the cache holds are left out.
+   cache = the rows confirmed so far in this script (the harness gives every script a cache of its own): the confirmations
+   of the success answers of the operations before (model/PushConfirm.v, confirms_of_event). *)
+Definition op2_act (cache : list N) (o : op2) : gact :=
   match o with
-  | O2Http items => GNewHandler items
+  | O2Http items => GNewHandler (read_items cache items)
   | O2Plan s => GSvc s SPlan
   | O2Send s => GSvc s SSend
   | O2Ret s ok => GSvc s (SDoReturn ok)
   end.
+Definition confirmed_by (es : list event) : list N := concat (map snd (flat_map confirms_of_event es)).
 
-Fixpoint run_ops2 (g : gstate) (dls : list (list bool)) (ops : list op2) : option (list (list event)) :=
+Fixpoint run_ops2 (g : gstate) (dls : list (list bool)) (cache : list N) (ops : list op2) : option (list (list event)) :=
   match ops with
   | [] => Some []
   | o :: rest =>
-      match gstep g (op2_act o) with
+      match gstep g (op2_act cache o) with
       | None => None
       | Some (g1, e1) =>
           let '(g2, dls', e2) := settle2 20 g1 dls in
-          match run_ops2 g2 dls' rest with
+          match run_ops2 g2 dls' (cache ++ confirmed_by (e1 ++ e2)) rest with
           | None => None
           | Some l => Some ((e1 ++ e2) :: l)
           end
@@ -332,23 +337,23 @@ Fixpoint run_ops2 (g : gstate) (dls : list (list bool)) (ops : list op2) : optio
   end.
 
 (* the state the model ends in, and freshness along the script *)
-Fixpoint final2 (g : gstate) (dls : list (list bool)) (ops : list op2) : option gstate :=
+Fixpoint final2 (g : gstate) (dls : list (list bool)) (cache : list N) (ops : list op2) : option gstate :=
   match ops with
   | [] => Some g
   | o :: rest =>
-      match gstep g (op2_act o) with
+      match gstep g (op2_act cache o) with
       | None => None
-      | Some (g1, _) => let '(g2, dls', _) := settle2 20 g1 dls in final2 g2 dls' rest
+      | Some (g1, e1) => let '(g2, dls', e2) := settle2 20 g1 dls in final2 g2 dls' (cache ++ confirmed_by (e1 ++ e2)) rest
       end
   end.
-Fixpoint ops2_fresh (own : N -> okey) (g : gstate) (dls : list (list bool)) (ops : list op2) : bool :=
+Fixpoint ops2_fresh (own : N -> okey) (g : gstate) (dls : list (list bool)) (cache : list N) (ops : list op2) : bool :=
   match ops with
   | [] => true
   | o :: rest =>
-      step_fresh own g (op2_act o) &&
-      match gstep g (op2_act o) with
+      step_fresh own g (op2_act cache o) &&
+      match gstep g (op2_act cache o) with
       | None => true
-      | Some (g1, _) => let '(g2, dls', _) := settle2 20 g1 dls in ops2_fresh own g2 dls' rest
+      | Some (g1, e1) => let '(g2, dls', e2) := settle2 20 g1 dls in ops2_fresh own g2 dls' (cache ++ confirmed_by (e1 ++ e2)) rest
       end
   end.
 
@@ -427,6 +432,9 @@ Record case2 := {
   d_ops : list op2;
   d_obs : list (list event);         (* observed: EDial / ESwap / ESend (table of the recognised rows) / EDone / EAnswer *)
   d_own : list (N * N * okey);       (* runs of row ids and the sub-request (push, position) that submitted them *)
+  d_repeat : bool;                   (* the script pushes the same series more than once: the same series row (same content, hence
+                                        same id) is submitted by several pushes, so row ids are not fresh and a block may hold the
+                                        row once per push that submitted it *)
   d_conf : list (list (nat * list N)) (* per operation: the series rows ConfirmSeries entered into the announcement cache (seen by a wrapper
                                          around controller.FPCache), per push, sorted *)
 }.
@@ -453,16 +461,29 @@ Fixpoint confs_eqb (model : list (list event)) (obs : list (list (nat * list N))
   | x :: a', y :: b' => conf_perm (filter (fun hk => negb (is_nil (snd hk))) (model_confs x)) y && confs_eqb a' b'
   | _, _ => false
   end.
+(* In a script that pushes the same series more than once the events carry the FULL requests of a push (what its body
+   gives rise to, dry run on an empty cache); the parser may have left series rows out because the cache held them.  The
+   success answer then demands of a series request that every row of it is stored -- all its cells in one accepted block, be
+   it of this push or of an earlier one (model/PushRead.v rows_stored; proofs/PushReadProofs.v) -- and of every other request
+   what amon_step demands. *)
+Definition amon_step_read (repeat strict : bool) (m : amon) (e : event) : option amon :=
+  match e with
+  | EAnswer h reqs true =>
+      if forallb (fun kr => covered strict (a_acked m) (fst kr) (snd kr)
+                            || (repeat && is_series (fst kr) && rows_stored (a_acked m) (fst kr) (snd kr))) reqs
+      then Some m else None
+  | _ => amon_step strict m e
+  end.
 (* the oracle on the OBSERVED confirmations (series_confirmed_only_after_all_inserts): every row confirmed during an
    operation is in the key column of a block whose Do had returned without error by the end of that operation *)
-Fixpoint confs_sound (m : amon) (obs : list (list event)) (confs : list (list (nat * list N))) : bool :=
+Fixpoint confs_sound (repeat : bool) (m : amon) (obs : list (list event)) (confs : list (list (nat * list N))) : bool :=
   match obs, confs with
   | es :: obs', cf :: confs' =>
-      match run_mon (amon_step false) m es with
+      match run_mon (amon_step_read repeat false) m es with
       | None => true                        (* reported by the acknowledgement monitor itself *)
       | Some m' =>
           forallb (fun hk => forallb (fun k => existsb (fun b => existsb (fun c => N.eqb (fst c) k) (nth 1 b [])) (a_acked m')) (snd hk)) cf
-          && confs_sound m' obs' confs'
+          && confs_sound repeat m' obs' confs'
       end
   | _, _ => true
   end.
@@ -474,16 +495,16 @@ Definition op2_wf (o : op2) : bool :=
    nothing) the model must have reached a state in which nothing is left to do -- all_done of model/IngestSched.v,
    the terminal states of the scheduler of C01's every_push_is_answered_exactly_once *)
 Definition model_mismatch2 (c : case2) : bool :=
-  match run_ops2 (ginit (d_cfg c) (d_attempts c)) (d_dials c) (d_ops c) with
+  match run_ops2 (ginit (d_cfg c) (d_attempts c)) (d_dials c) [] (d_ops c) with
   | None => true
   | Some l => negb (obs2_eqb l (d_obs c)) || negb (confs_eqb l (d_conf c)) ||
-              (d_drained c && match final2 (ginit (d_cfg c) (d_attempts c)) (d_dials c) (d_ops c) with
+              (d_drained c && match final2 (ginit (d_cfg c) (d_attempts c)) (d_dials c) [] (d_ops c) with
                               | Some g => negb (all_done g)
                               | None => true
                               end)
   end.
 Definition case2_fresh (c : case2) : bool :=
-  ops2_fresh (own_tab (d_own c)) (ginit (d_cfg c) (d_attempts c)) (d_dials c) (d_ops c).
+  ops2_fresh (own_tab (d_own c)) (ginit (d_cfg c) (d_attempts c)) (d_dials c) [] (d_ops c).
 Definition fresh_cases2 (cs : list case2) : list Z := map d_id (filter case2_fresh cs).
 
 (* C01 on the observed events: success answers only for pushes whose rows are all in accepted blocks; at most one
@@ -491,17 +512,17 @@ Definition fresh_cases2 (cs : list case2) : list Z := map d_id (filter case2_fre
 Definition c01_violation2 (c : case2) : bool :=
   let es := concat (d_obs c) in
   let n := length (d_cfg c) in
-  negb (is_some (run_mon (amon_step (forallb op2_wf (d_ops c))) (amon_init n) es) &&
-        one_answer_b es && confs_sound (amon_init n) (d_obs c) (d_conf c) &&
+  negb (is_some (run_mon (amon_step_read (d_repeat c) (forallb op2_wf (d_ops c))) (amon_init n) es) &&
+        one_answer_b es && confs_sound (d_repeat c) (amon_init n) (d_obs c) (d_conf c) &&
         (if d_drained c then forallb (fun h => existsb (Nat.eqb h) (answered es)) (seq 0 (d_handlers c)) else true)).
 
 (* C02 on the observed blocks: tables of distinct rows (the harness reports a block whose columns differ in
    length, or that holds an unknown row, as a block that is no table) *)
-Definition good_block2 (k : kind) (b : block) : bool :=
+Definition good_block2 (repeat : bool) (k : kind) (b : block) : bool :=
   let rids := map fst (nth (keycol k) b []) in
-  block_eqb b (table_of (ncols k) rids) && nodupb N.eqb rids.
+  block_eqb b (table_of (ncols k) rids) && (repeat || nodupb N.eqb rids).
 Definition c02_violation2 (c : case2) : bool :=
-  negb (forallb (fun kb => good_block2 (fst kb) (snd kb)) (sends (concat (d_obs c)))).
+  negb (forallb (fun kb => good_block2 (d_repeat c) (fst kb) (snd kb)) (sends (concat (d_obs c)))).
 
 Definition mismatches2 (cs : list case2) : list Z := map d_id (filter model_mismatch2 cs).
 Definition c01_violations2 (cs : list case2) : list Z := map d_id (filter c01_violation2 cs).
